@@ -691,6 +691,11 @@ def gen_added_case(rng):
 
 
 def run_added_case(case, out=None):
+    """`v.add_feature(spans, strand)`: the spans and the strand are AS SEEN ON THE VIEW `v` ("coordinates for this
+    sequence").  Oracle: the feature's residues are `str(v)[a:b]` over the spans (reverse complemented for strand
+    '-'); seen from anywhere else (same view again, the root, after a further rc or slice) it spells the same
+    residues; in the db it is stored at the corresponding absolute plus-strand positions, with the opposite strand
+    when the view is reverse complemented."""
     import random
 
     fails = []
@@ -707,44 +712,67 @@ def run_added_case(case, out=None):
     L = len(v)
     if L < 3:
         return []
+    p0, p1, rev = state
+    vs = str(v)
     r = random.Random(case["seed"])
-    pts = sorted(r.sample(range(0, L + 1), 2 * case["k"]))
-    spans = [(pts[2 * j], pts[2 * j + 1]) for j in range(case["k"])]
-    rev = state[2]
+    for _ in range(50):
+        pts = sorted(r.sample(range(0, L + 1), 2 * case["k"]))
+        spans = [(pts[2 * j], pts[2 * j + 1]) for j in range(case["k"])]
+        ref = "".join(vs[a:b] for a, b in spans)
+        # the wrong reading "spans are plus-strand offsets from the segment start" must give something else on an
+        # rc'd view (a segment that is its own reverse complement would hide the difference)
+        alt = "".join(rc(vs)[a:b] for a, b in spans)
+        if not rev or rc(alt) != ref:
+            break
+    else:
+        return []
+    ref = rc(ref) if case["strand"] == "-" else ref
+    if rev:
+        want_db = dict(spans=sorted([p1 - b, p1 - a] for a, b in spans), strand="-" if case["strand"] == "+" else "+")
+    else:
+        want_db = dict(spans=sorted([p0 + a, p0 + b] for a, b in spans), strand=case["strand"])
     flav = f"{case['kind']}:{'rev' if rev else 'fwd'}:{'offset' if v.annotation_offset else 'origin'}"
     try:
         f = v.add_feature(biotype="gene", name="added", spans=spans, strand=case["strand"])
-        ref = str(f.get_slice())
-    except ValueError as e:
-        if "cannot set offset" in str(e) and case["kind"] == "new":
-            return []  # open finding C04-new-sequence-feature-slice-offset-guard: no reference residues available
-        return [("add_feature on a view raised", dict(inp, spans=spans), "a feature", f"ValueError: {e}", f"added:{flav}:raises:ValueError")]
     except Exception as e:  # noqa: BLE001
         return [("add_feature on a view raised", dict(inp, spans=spans), "a feature", f"{type(e).__name__}: {e}", f"added:{flav}:raises:{type(e).__name__}")]
     if out is not None:
         out["evaluations"] += 1
         bump(out, "added_on", flav)
         out["nontrivial"].add(("added", case["text"], json.dumps(case["ops"]), str(spans)))
-    if not rev:
-        want = "".join(str(v)[a:b] for a, b in spans)
-        want = rc(want) if case["strand"] == "-" else want
-        if ref != want:
-            fails.append(("the feature returned by add_feature does not denote view[spans]", dict(inp, spans=spans), want, ref, f"added:{flav}:returned"))
-            return fails
+
+    def sl(x):
+        try:
+            return str(x.get_slice())
+        except ValueError as e:
+            if "cannot set offset" in str(e) and case["kind"] == "new":
+                return None  # open finding C04-new-sequence-feature-slice-offset-guard
+            return f"raised ValueError: {e}"
+        except Exception as e:  # noqa: BLE001
+            return f"raised {type(e).__name__}: {e}"
+
+    got = sl(f)
+    if got is not None and got != ref:
+        fails.append(("the feature returned by add_feature does not denote view[spans] read on the given strand",
+                      dict(inp, spans=spans), ref, got, f"added:{flav}:returned"))
+    rec = [x for x in root.annotation_db.get_features_matching(name="added")] if root.annotation_db is v.annotation_db else None
+    if rec is not None:
+        got_db = dict(spans=sorted([int(a), int(b)] for a, b in rec[0]["spans"]), strand=rec[0]["strand"] or "+") if len(rec) == 1 else f"{len(rec)} records"
+        if got_db != want_db:
+            fails.append(("add_feature on a view stored other coordinates / strand than the absolute plus-strand image of the spans",
+                          dict(inp, spans=spans), want_db, got_db, f"added:{flav}:db"))
     lo, hi = spans[0][0], spans[-1][1]
     probes = [("same-view", v), ("root", root), ("after-rc", v.rc())]
     if hi - lo < L:
-        # a further slice that still contains the whole feature (view coordinates; on an rc'd view the spans are
-        # plus-oriented, so mirror them)
-        a, b = (L - hi, L - lo) if rev else (lo, hi)
-        probes.append(("further-slice", v[a:b]))
+        probes.append(("further-slice", v[lo:hi]))
     for which, obj in probes:
         try:
-            got = [str(x.get_slice()) for x in obj.get_features(name="added", allow_partial=True)]
+            feats = list(obj.get_features(name="added", allow_partial=True))
+            got = [sl(x) for x in feats]
         except Exception as e:  # noqa: BLE001
-            if "cannot set offset" in str(e) and case["kind"] == "new":
-                continue
             got = f"raised {type(e).__name__}: {e}"
+        if isinstance(got, list) and None in got:
+            continue
         if out is not None:
             out["evaluations"] += 1
         if got != [ref]:
